@@ -46,7 +46,7 @@ func worldAuthz(w *World) {
 	var sshDir string
 	var sshGood, sshBad ssh.Signer
 	if sshGW != 0 {
-		sshDir, _ = os.MkdirTemp("", "verif-ssh")
+		sshDir = w.ScratchDir("ssh")
 		defer os.RemoveAll(sshDir)
 		mk := func(name string) (ssh.Signer, ssh.PublicKey) {
 			seed := make([]byte, ed25519.SeedSize)
